@@ -63,3 +63,13 @@ chk("C19", "E1 (depth-1 exhaustive argument enumeration)",
     "sliding_window_view alone and under every reducer for every n<=8, chunking and window; map_overlap under every boundary kind/depth against np.pad semantics; overlap+trim identity; bottleneck moving windows through map_overlap; diff/gradient; cumulative scans sequential and blelloch -- all enumerated completely on the implementation.",
     "Trusted: numpy.lib.stride_tricks.sliding_window_view, np.pad, bottleneck on the whole array as references.",
     "DESIGN.md §4 C19")
+chk("C10", "E3 controlled scheduler",
+    "deviation-bounded stateless exploration of all topological orders of the real task graphs under a harness-owned scheduler, with a whole-heap mutation monitor",
+    "For every depth<=2 program over the in-place/view-suspect alphabet the optimized task graph is executed by the harness in every topological order with <= k deviations from the dask.order default (k = 0,1 quick; 0,1,2 thorough), each schedule on a fresh graph over a fresh source; after every task all live values and the source arrays are fingerprinted against before; the result must equal the default-order run and NumPy.",
+    "Trusted: task granularity (no intra-kernel races); graphs above the task cap are skipped and counted; values are never released.",
+    "DESIGN.md §4 C10")
+chk("C11", "E4 history explorer",
+    "exhaustive enumeration of all event histories up to length L on a live interpreter state with a NumPy copy-semantics reference model",
+    "All histories of length <= 3 (4 on a compact alphabet) over {derivations, x[key]=value for every key/value kind, ufunc out=/where=, +=, compute/keys/graph/to_delayed/persist/pickle touches} are executed from the reset state; after each history every pool member computes to its reference, x's keys and to_delayed() agree with compute(), and the source arrays are unchanged.",
+    "Trusted: NumPy with copy semantics at derivation as the reference model; a derivation returning the same object is an alias, not another collection; masked assignment only as the last mutation.",
+    "DESIGN.md §4 C11")
